@@ -57,7 +57,7 @@ theorem C01_accept_honours_terms (env : Env) (rules : Rules) (b : Batch) (best :
     exact ⟨h1, h4, h2.symm, h3, isNodeIDAValidMatch_spec (hperm t ht), h5⟩
   · intro hne
     rw [← hsum]
-    exact hunder (by simpa [outboundMarket, Pool.Gen.btcOutboundLiquidity] using hne)
+    exact hunder (by simpa [outboundMarket, Pool.Gen.Batch.btcOutboundLiquidity] using hne)
 
 /-- non-vacuity: a two-order proposal (ask with deny list + sidecar bid with allow list, two markets) meets the
 hypotheses of `C01_accept_honours_terms` -/
